@@ -177,7 +177,7 @@ FoldR(f, items, acc) == IF items = <<>> THEN acc ELSE VF(f, Head(items), FoldR(f
 ---------------------------------------------------------------------------
 (* Structural analysis used by well-formedness *)
 
-IterOps == {"rep", "sep", "enum", "cfgrep", "cfgrepmin", "cfgrepmax"}
+IterOps == {"rep", "sep", "enum", "cfgrep", "cfgrepmin", "cfgrepmax", "cfgreptry"}
 
 (* CanEmpty(g): g may succeed without consuming a token (over-approximation) *)
 RECURSIVE CanEmpty(_)
@@ -207,7 +207,7 @@ CanEmpty(g) ==
     [] o = "lazy" -> TRUE
     [] o = "rep" -> g[3] = 0 \/ CanEmpty(g[2])
     [] o = "sep" -> g[4] = 0 \/ CanEmpty(g[2])
-    [] o \in {"enum", "cfgrep", "cfgrepmin", "cfgrepmax"} -> TRUE
+    [] o \in {"enum", "cfgrep", "cfgrepmin", "cfgrepmax", "cfgreptry"} -> TRUE
     [] o \in {"collect", "run"} -> CanEmpty(g[2])
     [] o = "exact" -> g[3] = 0 \/ CanEmpty(g[2])
     [] o \in {"foldl", "foldlw"} -> CanEmpty(g[2]) /\ CanEmpty(g[3])
@@ -230,7 +230,7 @@ WFIter(it) ==
   LET o == Op(it) IN
   CASE o = "rep" -> WF(it[2]) /\ ~CanEmpty(it[2])
     [] o = "sep" -> WF(it[2]) /\ WF(it[3]) /\ ~CanEmpty(it[2])
-    [] o \in {"enum", "cfgrep", "cfgrepmin", "cfgrepmax"} -> Op(it[2]) \in {"rep", "sep"} /\ WF(it[2][2]) /\ ~CanEmpty(it[2][2])
+    [] o \in {"enum", "cfgrep", "cfgrepmin", "cfgrepmax", "cfgreptry"} -> Op(it[2]) \in {"rep", "sep"} /\ WF(it[2][2]) /\ ~CanEmpty(it[2][2])
                                    /\ (Op(it[2]) = "sep" => WF(it[2][3]))
     [] OTHER -> FALSE
 WFStrat(s) ==
@@ -271,7 +271,7 @@ HasOp(g, ops) ==
        [] o \in {"group", "grouparr", "choice", "choicev"} -> AnyHasOp(g[2], ops)
        [] o \in {"ornot", "not", "rewind", "map", "to", "ignored", "filter", "trymap", "trymapw", "validate", "mw",
                  "tospan", "toslice", "boxed", "memo", "label", "maperr", "rec", "recd", "withstate", "lazy",
-                 "collect", "run", "exact", "rep", "enum", "cfgrep", "cfgrepmin", "cfgrepmax"} -> HasOp(g[2], ops)
+                 "collect", "run", "exact", "rep", "enum", "cfgrep", "cfgrepmin", "cfgrepmax", "cfgreptry"} -> HasOp(g[2], ops)
        [] o = "sep" -> HasOp(g[2], ops) \/ HasOp(g[3], ops)
        [] o \in {"foldl", "foldr", "foldlw", "foldrw"} -> HasOp(g[2], ops) \/ HasOp(g[3], ops)
        [] o = "recover" -> HasOp(g[2], ops) \/ HasOp(g[3], ops)
